@@ -5,44 +5,56 @@ open MontePyVerif.Spec.Geometry MontePyVerif.Geometry
 
 /-- like `Good`, from a lexer that still holds the complete lexeme `p0` -/
 def GoodFrom (p0 : Pend) (T : List GCh) (toks : List Tok) : Prop :=
-  ∃ ts p, StepsC p0 false T ts p ∧ Complete p ∧ ts ++ ftoks p = toks ∧ (cmtAfter false T = true → p = .none)
+  ∃ ts p, StepsC p0 false T ts p ∧ Complete p ∧ ts ++ ftoks p = toks ∧ (cmtAfter false T = true → p = .none) ∧
+    PendOK p0 T p
 
 theorem good_iff {T toks} : Good T toks ↔ GoodFrom .none T toks := Iff.rfl
 
 /-- separators may follow -/
 theorem GoodFrom.sep {p0 T toks E} (h : GoodFrom p0 T toks) (he : isSep (cmtAfter false T) E = true) :
     GoodFrom p0 (T ++ E) toks := by
-  obtain ⟨ts, p, hs, hp, ht, hc⟩ := h
+  obtain ⟨ts, p, hs, hp, ht, hc, hpend⟩ := h
   cases hcT : cmtAfter false T with
   | true =>
     have hpn := hc hcT; subst hpn
     rw [hcT] at he
     have h2 : StepsC .none (cmtAfter false T) E [] .none := by rw [hcT]; exact sep_steps he
-    exact ⟨ts ++ [], .none, StepsC.trans hs h2, trivial, by simpa using ht, fun _ => rfl⟩
+    exact ⟨ts ++ [], .none, StepsC.trans hs h2, trivial, by simpa using ht, fun _ => rfl, Or.inr (Or.inl rfl)⟩
   | false =>
     rw [hcT] at he
-    obtain ⟨ts', p', hs', hp', ht', hc', _⟩ := sep_steps_any hp he
+    obtain ⟨ts', p', hs', hp', ht', hc', hne, hnil⟩ := sep_steps_any hp he
     have h2 : StepsC p (cmtAfter false T) E ts' p' := by rw [hcT]; exact hs'
-    refine ⟨ts ++ ts', p', StepsC.trans hs h2, hp', ?_, ?_⟩
+    refine ⟨ts ++ ts', p', StepsC.trans hs h2, hp', ?_, ?_, ?_⟩
     · rw [List.append_assoc, ht', ht]
     · intro hh; rw [cmtAfter_append, hcT] at hh; exact hc' hh
+    · cases E with
+      | nil => rw [hnil rfl, List.append_nil]; exact hpend
+      | cons x xs => exact Or.inr (Or.inl (hne (by simp)))
 
 theorem GoodFrom.seq1 {p0 T1 k1 T2 k2} (h1 : GoodFrom p0 T1 k1) (hc : cmtAfter false T1 = false)
     (h2 : ∀ p, Complete p → GoodFrom p T2 (ftoks p ++ k2)) : GoodFrom p0 (T1 ++ T2) (k1 ++ k2) := by
-  obtain ⟨ts, p, hs, hp, ht, _⟩ := h1
-  obtain ⟨ts2, p2, hs2, hp2, ht2, hc2⟩ := h2 p hp
+  obtain ⟨ts, p, hs, hp, ht, _, hpend⟩ := h1
+  obtain ⟨ts2, p2, hs2, hp2, ht2, hc2, hpend2⟩ := h2 p hp
   have hs2' : StepsC p (cmtAfter false T1) T2 ts2 p2 := by rw [hc]; exact hs2
-  refine ⟨ts ++ ts2, p2, StepsC.trans hs hs2', hp2, ?_, ?_⟩
+  refine ⟨ts ++ ts2, p2, StepsC.trans hs hs2', hp2, ?_, ?_, ?_⟩
   · rw [List.append_assoc, ht2, ← List.append_assoc, ht]
   · intro hh; rw [cmtAfter_append, hc] at hh; exact hc2 hh
+  · rcases hpend2 with ⟨hT, hpp⟩ | hn | hd
+    · subst hT; subst hpp; rw [List.append_nil]; exact hpend
+    · exact Or.inr (Or.inl hn)
+    · exact Or.inr (Or.inr (lastDigit_append hd))
 
 theorem GoodFrom.seq2 {p0 T1 k1 T2 k2} (h1 : StepsC p0 false T1 k1 .none) (hc : cmtAfter false T1 = false)
     (h2 : GoodFrom .none T2 k2) : GoodFrom p0 (T1 ++ T2) (k1 ++ k2) := by
-  obtain ⟨ts2, p2, hs2, hp2, ht2, hc2⟩ := h2
+  obtain ⟨ts2, p2, hs2, hp2, ht2, hc2, hpend2⟩ := h2
   have hs2' : StepsC .none (cmtAfter false T1) T2 ts2 p2 := by rw [hc]; exact hs2
-  refine ⟨k1 ++ ts2, p2, StepsC.trans h1 hs2', hp2, ?_, ?_⟩
+  refine ⟨k1 ++ ts2, p2, StepsC.trans h1 hs2', hp2, ?_, ?_, ?_⟩
   · rw [List.append_assoc, ht2]
   · intro hh; rw [cmtAfter_append, hc] at hh; exact hc2 hh
+  · rcases hpend2 with ⟨_, hpp⟩ | hn | hd
+    · exact Or.inr (Or.inl hpp)
+    · exact Or.inr (Or.inl hn)
+    · exact Or.inr (Or.inr (lastDigit_append hd))
 
 theorem paren_from {p R tsR} (hp : Complete p) (hR : StepsC .none false R tsR .none) :
     StepsC p false (.lp :: R) (ftoks p ++ .lp :: tsR) .none := by
@@ -149,12 +161,39 @@ theorem cmtAfter_cellVal {tok : List GCh} {v : Nat} (h : cellVal tok = some v) :
     simp [cellVal] at h
     rw [cmtAfter_false_cons_ne (by simp)]; exact cmtAfter_digVal h
 
+theorem lastDigit_digVal {a v d : Nat} {ds : List GCh} (h : digVal a ds = some v) :
+    lastDigit (.digit d :: ds) = true := by
+  induction ds generalizing a d with
+  | nil => rfl
+  | cons x xs ih =>
+    cases x <;> simp [digVal] at h
+    rename_i d'
+    have : lastDigit (GCh.digit d :: GCh.digit d' :: xs) = lastDigit (GCh.digit d' :: xs) := by
+      simp [lastDigit, List.getLast?_cons_cons]
+    rw [this]; exact ih h
+
+theorem lastDigit_tokVal {tok : List GCh} {r : Bool × Nat} (h : tokVal tok = some r) : lastDigit tok = true := by
+  match tok, h with
+  | .digit d :: cs, h =>
+    simp [tokVal] at h; obtain ⟨v, hv, _⟩ := h; exact lastDigit_digVal hv
+  | .plus :: .digit d :: cs, h =>
+    simp [tokVal] at h; obtain ⟨v, hv, _⟩ := h
+    exact lastDigit_append (A := [GCh.plus]) (lastDigit_digVal hv)
+  | .minus :: .digit d :: cs, h =>
+    simp [tokVal] at h; obtain ⟨v, hv, _⟩ := h
+    exact lastDigit_append (A := [GCh.minus]) (lastDigit_digVal hv)
+
+theorem lastDigit_cellVal {tok : List GCh} {v : Nat} (h : cellVal tok = some v) : lastDigit tok = true := by
+  match tok, h with
+  | .digit d :: cs, h => simp [cellVal] at h; exact lastDigit_digVal h
+
 /-- a surface leaf -/
 theorem good_leaf {tok : List GCh} {neg : Bool} {d : Nat} {pad : List GCh}
     (ht : tokVal tok = some (neg, d)) (hp : isSep false pad = true) : Good (tok ++ pad) [.num d neg] := by
   have hc := cmtAfter_tokVal ht
   have h1 : GoodFrom .none tok [.num d neg] :=
-    ⟨[], .digits neg d, by unfold StepsC; rw [hc]; exact tok_steps ht, trivial, rfl, by simp [hc]⟩
+    ⟨[], .digits neg d, by unfold StepsC; rw [hc]; exact tok_steps ht, trivial, rfl, by simp [hc],
+      Or.inr (Or.inr (lastDigit_tokVal ht))⟩
   exact h1.sep (by rw [hc]; exact hp)
 
 /-- `#n`: the operator padding, the cell number, its padding, the end_pad -/
@@ -172,7 +211,8 @@ theorem good_cell {S tok pad ep : List GCh} {d : Nat}
   have h123 := StepsC.trans h12 h3
   have hc123 : cmtAfter false (S ++ [.hash] ++ tok) = false := by rw [cmtAfter_append, hc12, hc]
   have g1 : GoodFrom .none (S ++ [.hash] ++ tok) [.cell d] :=
-    ⟨_, .hdigits d, h123, trivial, by simp [ftoks], fun hh => by rw [hc123] at hh; cases hh⟩
+    ⟨_, .hdigits d, h123, trivial, by simp [ftoks], (fun hh => by rw [hc123] at hh; cases hh),
+      Or.inr (Or.inr (lastDigit_append (lastDigit_cellVal ht)))⟩
   have g2 := g1.sep (E := pad) (by rw [hc123]; exact hp)
   have hc4 : cmtAfter false (S ++ [.hash] ++ tok ++ pad) = cmtAfter false pad := by
     rw [cmtAfter_append, hc123]
@@ -197,7 +237,7 @@ theorem good_compl {S R ep : List GCh} {tsR : List Tok}
   have hcw : cmtAfter false (S ++ [.hash] ++ [.lp] ++ R) = cmtAfter false (.lp :: R) := by
     rw [cmtAfter_append, hc123, cmtAfter_lp]
   have g1 : GoodFrom .none (S ++ [.hash] ++ [.lp] ++ R) (.clp :: tsR) :=
-    ⟨_, .none, h1234, trivial, by simp [ftoks], fun _ => rfl⟩
+    ⟨_, .none, h1234, trivial, by simp [ftoks], fun _ => rfl, Or.inr (Or.inl rfl)⟩
   have g2 := g1.sep (E := ep) (by rw [hcw]; exact he)
   have e : S ++ [GCh.hash] ++ [.lp] ++ R ++ ep = (S ++ [.hash]) ++ ((.lp :: R) ++ ep) := by simp
   rw [← e]; exact g2
@@ -208,11 +248,27 @@ theorem good_inter {L R opr ep : List GCh} {kL kR : List Tok}
     (ho : isSep false opr = true) (hoc : cmtAfter false opr = false)
     (hsepar : opr ≠ [] ∨
       (∃ RL tsL, L = .lp :: RL ∧ kL = .lp :: tsL ∧ StepsC .none false RL tsL .none) ∨
-      (∃ RR tsR, R = .lp :: RR ∧ kR = .lp :: tsR ∧ StepsC .none false RR tsR .none))
+      (∃ RR tsR, R = .lp :: RR ∧ kR = .lp :: tsR ∧ StepsC .none false RR tsR .none) ∨
+      lastDigit L = false)
     (he : isSep (cmtAfter false R) ep = true) :
     Good (L ++ (opr ++ (R ++ ep))) (kL ++ kR) := by
   have gRE : GoodFrom .none (R ++ ep) kR := GoodFrom.sep gR he
-  rcases hsepar with hne | ⟨RL, tsL, hL, hk, hs⟩ | ⟨RR, tsR, hR, hk, hs⟩
+  rcases hsepar with hne | ⟨RL, tsL, hL, hk, hs⟩ | ⟨RR, tsR, hR, hk, hs⟩ | hnd
+  rotate_right
+  · -- the left text does not end in a digit: the lexer holds nothing behind it
+    obtain ⟨ts, p, hsL, _, htL, _, hpend⟩ := gL
+    have hpn : p = .none := by
+      rcases hpend with ⟨_, h⟩ | h | h
+      · exact h
+      · exact h
+      · rw [hnd] at h; cases h
+    subst hpn
+    have hk : ts = kL := by simpa [ftoks] using htL
+    subst hk
+    have hmid : GoodFrom .none (opr ++ (R ++ ep)) kR := by
+      have := GoodFrom.seq2 (sep_steps ho : StepsC .none false opr [] .none) hoc gRE
+      simpa using this
+    exact GoodFrom.seq2 hsL hLc hmid
   · refine GoodFrom.seq1 gL hLc (fun p hp => ?_)
     cases opr with
     | nil => exact absurd rfl hne
@@ -230,7 +286,7 @@ theorem good_inter {L R opr ep : List GCh} {kL kR : List Tok}
     refine GoodFrom.seq1 gL hLc (fun p hp => ?_)
     have hfrom : StepsC p false (.lp :: RR) (ftoks p ++ .lp :: tsR) .none := paren_from hp hs
     have hRE : GoodFrom p ((.lp :: RR) ++ ep) (ftoks p ++ .lp :: tsR) :=
-      GoodFrom.sep ⟨_, .none, hfrom, trivial, by simp [ftoks], fun _ => rfl⟩ he
+      GoodFrom.sep ⟨_, .none, hfrom, trivial, by simp [ftoks], fun _ => rfl, Or.inr (Or.inl rfl)⟩ he
     cases opr with
     | nil => simpa using hRE
     | cons x xs =>
